@@ -82,9 +82,16 @@ func (ex *Exec) evalIdentC(p *Path, id *ast.Ident) Value {
 			return ex.objValue(p, obj, id.Pos())
 		}
 	}
+	if loopIndexNameRe.MatchString(id.Name) && ex.evaluatingAtCall {
+		// an at-call clause is evaluated at every call of the callee it names; a loop index it mentions is only bound
+		// inside that loop - elsewhere it reads as -1 ("not in that loop"), so that a clause can say `in_loop ==> ...`
+		return Value{"(- 1)", types.Typ[types.Int]}
+	}
 	ex.unsupp(id.Pos(), "contract: unknown name %q", id.Name)
 	return Value{}
 }
+
+var loopIndexNameRe = regexp.MustCompile(`^_i\d*$`)
 
 
 // evalClause evaluates a clause expression to a Bool term.
